@@ -8,6 +8,7 @@ pub mod checks;
 #[cfg(feature = "explore")]
 pub mod explore;
 pub mod explore_free;
+pub mod miri_suite;
 pub mod readers;
 pub mod refmodel;
 pub mod report;
